@@ -37,6 +37,35 @@ inline uint64_t mix(uint64_t h, uint64_t v) {
   return h * 0xff51afd7ed558ccdull;
 }
 
+// A comparator with BOTH call operators, giving the same order: the const one is pure, the non-const one keeps a
+// statistic in the comparator object -- which is part of the shared container.  Mutating members may use either; a
+// const member must invoke the container's own comparator as a const object, hence the pure overload.  If a const
+// lookup drops the constness (const_cast of the comparator base/member), the non-const overload is selected and the
+// lookup WRITES into the shared container: the frozen arena faults, TSan reports, and `calls` (part of the lookup
+// digest through comparator_state) no longer equals what it was when the operation ran alone.
+struct DualLess {
+  long calls = 0;
+  bool operator()(int a, int b) const { return a < b; }
+  bool operator()(int a, int b) {
+    ++calls;
+    return a < b;
+  }
+};
+
+// the observable state of the container's comparator (0 for stateless comparators)
+template <class Cmp, class = void>
+struct comparator_state_of {
+  static uint64_t get(const Cmp &) { return 0; }
+};
+template <class Cmp>
+struct comparator_state_of<Cmp, decltype(void(std::declval<const Cmp &>().calls))> {
+  static uint64_t get(const Cmp &c) { return static_cast<uint64_t>(c.calls); }
+};
+template <class C>
+uint64_t comparator_state(const C &a) {
+  return comparator_state_of<typename C::key_compare>::get(a.key_comp());
+}
+
 constexpr int kPresentKey = 20;
 constexpr int kAbsentKey = 25;
 
@@ -178,6 +207,7 @@ uint64_t lookup(const C &a, int key) {
     h = mix(h, pos(a, er.first));
     h = mix(h, pos(a, er.second));
   }
+  h = mix(h, comparator_state(a));  // read AFTER the lookups: a const lookup must not have changed it
   return h;
 }
 template <class C>
